@@ -53,6 +53,8 @@ unsigned verif_max_acq(void) {
 	for (int i = 0; i < L_COUNT; i++) if (verif_acq_count[i] > m) m = verif_acq_count[i];
 	return m;
 }
+void verif_rmw_released(int id);
+void verif_rmw_reset(void);
 bool verif_held(int id) { return verif_rd[id] > 0 || verif_wr[id] > 0; }
 bool verif_held_w(int id) { return verif_wr[id] > 0; }
 void verif_locks_reset(void) {
@@ -61,6 +63,7 @@ void verif_locks_reset(void) {
 		for (int j = 0; j < L_COUNT; j++) verif_edge[i][j] = false;
 	}
 	verif_lock_errors = 0; verif_order_errors = 0; verif_recursive_reads = 0;
+	verif_rmw_reset();
 }
 
 /* the global nesting order as practised by the library (bidib_init_mutexes acquires the locks in this very
@@ -117,6 +120,7 @@ int pthread_mutex_unlock(pthread_mutex_t *m) {
 	}
 	verif_wr[id] = 0;
 	verif_rel_count[id]++;
+	verif_rmw_released(id);
 	return 0;
 }
 int pthread_rwlock_init(pthread_rwlock_t *l, const pthread_rwlockattr_t *a) {
@@ -162,8 +166,30 @@ int pthread_rwlock_unlock(pthread_rwlock_t *l) {
 		__CPROVER_assert(0, "LOCK: unlock of a rwlock that is not held");
 	}
 	verif_rel_count[id]++;
+	verif_rmw_released(id);
 	return 0;
 }
+
+/* ---- atomicity of read-modify-write on the train state (C10: no lost update) ----
+ * A command that reads the tracked train state and later writes a value derived from it back must keep other
+ * writers out in between: either the trains rwlock in WRITE mode or trackstate_trains_mutex has to be held
+ * continuously from the read to the write-back (all train-state writers take one of them).  The epoch counts how
+ * often that exclusive protection was given up; the generated shims (queries/gen_contracts.py) mark the epoch at the
+ * read accessor and compare it at the write-back. */
+static unsigned verif_excl_epoch;
+static int verif_rmw_epoch = -1;
+static bool train_excl(void) { return verif_wr[L_TRAINS_RW] > 0 || verif_wr[L_TS_TRAINS] > 0; }
+void verif_rmw_released(int id) {
+	if ((id == L_TRAINS_RW || id == L_TS_TRAINS) && !train_excl()) verif_excl_epoch++;
+}
+void verif_rmw_mark(void) { if (train_excl()) verif_rmw_epoch = (int)verif_excl_epoch; }
+void verif_rmw_check(void) {
+	if (verif_rmw_epoch >= 0)
+		__CPROVER_assert(verif_rmw_epoch == (int)verif_excl_epoch && train_excl(),
+		                 "ATOMIC: train state read and written back under one continuous exclusive lock "
+		                 "(bidib_trains_rwlock in write mode or trackstate_trains_mutex)");
+}
+void verif_rmw_reset(void) { verif_rmw_epoch = -1; }
 
 /* ---- threads: recorded, never run ---- */
 int verif_threads_created;
